@@ -233,12 +233,19 @@ def direct_part(spec, part):
 class RawPeer(ScriptedPeer):
     def __init__(self, sc):
         super().__init__(engine.HOST, sc["framing"], [], sc["T"], after="drop")
+        self.sc = sc
         self.frames = [bytes.fromhex(x) for x in sc["frames"]]
 
     def on_request(self, s, kind, frame, n):
         self.loop.ev("peer", self.owner, n, "raw")
         if n <= len(self.frames):
-            self.send(s, self.frames[n - 1], 0, n)
+            fr = self.frames[n - 1]
+            cut = self.sc.get("cuts", {}).get(str(n))
+            if cut:
+                self.send(s, fr[:cut], 0, n, 1)
+                self.send(s, fr[cut:], 0.2, n, 2)
+            else:
+                self.send(s, fr, 0, n)
 
 
 def transport_part(spec, part):
@@ -267,8 +274,14 @@ def transport_part(spec, part):
         other = valid_answer(d2, rnd)
         muts = [m for m in mutations(base, other, rnd, 12, d) if m[0] != "valid" and len(m[1]) > 0]
         frames = [rnd.choice(muts)[1] for _ in range(3)]
+        cuts = {}
+        if rnd.random() < 0.3:      # the VALID answer, delivered in two pieces (what is delivered must still be the whole frame)
+            frames[0] = base
+            hdr = 5 if framing == "rtu" else 9
+            if len(base) > hdr + 1:
+                cuts["1"] = rnd.randrange(hdr, len(base))
         sc = {"transport": "tcp" if framing == "tcp" else "udp", "framing": framing, "keep_alive": rnd.random() < 0.5,
-              "T": 1, "R": 2, "frames": [f.hex() for f in frames], "tasks": [{"start": 0.0, "steps": [step]}]}
+              "T": 1, "R": 2, "frames": [f.hex() for f in frames], "cuts": cuts, "tasks": [{"start": 0.0, "steps": [step]}]}
         run = engine.run_scenario(sc, peer_factory=RawPeer, quiesce=False)
         part.evaluations += 1
         rec = run.calls[0] if run.calls else None
